@@ -97,11 +97,11 @@ def run(ctx):
         elif e["n"]["b"]:
             distinct.add((e["event"], e["n"]["neg"], bytes(e["n"]["b"])))
     for k in ("Parse", "Format", "RoundTrip", "Rescale", "EthValue"):
-        require(by_event.get(k, 0) > 20, "event kind %s hardly occurred" % k)
+        require(by_event.get(k, 0) > 20, "event kind %s hardly occurred" % k, ctx=ctx)
     require(id18 > 20 and frac18 > 20 and int78 > 20 and neg > 20 and tenth > 100,
             "boundary classes missing (dec=18: %d, 18 fraction digits: %d, 78 integer digits: %d, negative: %d, non-dyadic: %d)"
-            % (id18, frac18, int78, neg, tenth))
-    require(events == nev, "events judged (%d) != events recorded (%d)" % (events, nev))
+            % (id18, frac18, int78, neg, tenth), ctx=ctx)
+    require(events == nev, "events judged (%d) != events recorded (%d)" % (events, nev), ctx=ctx)
     coverage = {
         "evaluations": events,
         "distinct_nontrivial": len(distinct),
